@@ -120,6 +120,15 @@ def check(case, ctx):
         ctx.event("small-misorientation")
     Q = S.build_rotation(case["q"]) + 0.0
     U1, U2 = O.ro(U1), O.ro(U2)
+    if case["j"] % 4 == 0:
+        # the module's logging helpers (they print the equivalent orientations / settings) are used first
+        for helper, arg in (("add_rot", np.array(U1)), ("add_perm", np.eye(3))):
+            if hasattr(symmetry, helper):
+                try:
+                    getattr(symmetry, helper)(arg, k)
+                except Exception:
+                    pass
+        ctx.event("logging-helpers-called-first")
     R = np.asarray(symmetry.rotations(k), float)
     P = np.asarray(symmetry.permutations(k), float)
     if R.shape != (N, 3, 3) or P.shape != (N, 3, 3):
